@@ -2,6 +2,7 @@ package main
 
 import (
 	"fmt"
+	"go/token"
 	"go/types"
 	"strings"
 
@@ -10,14 +11,15 @@ import (
 
 func init() {
 	register(&PropSpec{
-		ID: "C07",
+		ID:          "C07",
 		Explanation: "Structural necessary conditions for stream isolation on a shared connection. R1: in every implementation of the unacknowledged-chunk store, each mutation of the per-connection map is keyed by the stream id (and sequence number) parameters; replacing the whole map is allowed only in a constructor. R2: in the wire connection's close paths every delete on a routing table is keyed by the closing request's stream id or by the alias looked up with it, and every dispatch loop looks up by the incoming message's own alias and sends only on the channel it found. R3: the store's Clear is reachable only on the non-reliable resume branch and only with the stream's own id.",
-		NotDecided: []string{"non-interference as a relational property over pairs of histories", "isolation inside the broker"},
+		NotDecided:  []string{"non-interference as a relational property over pairs of histories", "isolation inside the broker"},
 		Assumptions: []string{"value provenance is computed intraprocedurally over SSA with parameters followed one call level"},
 		Rules: func(r *Run) {
 			ruleC07R1(r)
 			ruleC07R2(r)
 			ruleC07R3(r)
+			ruleDispatchLoopsSurvive(r, "R4", "/wire", "/iscp")
 		},
 	})
 }
@@ -404,4 +406,85 @@ func reachesWithoutBlock(from, to *ssa.BasicBlock) bool {
 		stack = append(stack, b.Succs...)
 	}
 	return false
+}
+
+// ruleDispatchLoopsSurvive: a loop that ranges over a channel of incoming messages serves every stream of the
+// connection; one message it cannot route must not end it. Inside the loop body a return is allowed only on a
+// branch entered through a receive from a Done()/Closed()-like channel (shutdown).
+func ruleDispatchLoopsSurvive(r *Run, id string, pkgs ...string) {
+	r.Begin(id, "dispatch loops survive unroutable messages: in every function that ranges over a channel of incoming messages, no return is reachable inside the loop body except on a branch entered by receiving from a Done()/Closed() channel; an unknown alias or a full subscriber is skipped with continue", 6)
+	p := r.P
+	n := 0
+	for _, fn := range p.Funcs {
+		okPkg := false
+		for _, pk := range pkgs {
+			if fnPkgPath(fn) == modPath+pk {
+				okPkg = true
+			}
+		}
+		if !okPkg || fn.Blocks == nil {
+			continue
+		}
+		// range over channel: a comma-ok receive whose ok decides the loop, located in a block that is part of a cycle
+		allInstrs(fn, func(ins ssa.Instruction) {
+			u, ok := ins.(*ssa.UnOp)
+			if !ok || u.Op != token.ARROW || !u.CommaOk || !inLoop(u) || u.Block().Comment != "rangechan.loop" {
+				return
+			}
+			var body *ssa.BasicBlock
+			if ifs, isIf := u.Block().Instrs[len(u.Block().Instrs)-1].(*ssa.If); isIf {
+				body = ifs.Block().Succs[0]
+			}
+			if body == nil {
+				return
+			}
+			n++
+			name := fnName(fn)
+			// shutdown branches in the body
+			var shut []*ssa.BasicBlock
+			for _, b := range fn.Blocks {
+				if !(b == body || body.Dominates(b)) {
+					continue
+				}
+				for _, x := range b.Instrs {
+					if sel, isSel := x.(*ssa.Select); isSel {
+						for i, st := range sel.States {
+							if st.Dir != types.RecvOnly {
+								continue
+							}
+							if _, isDone := doneLike(st.Chan); isDone {
+								if sb := selectStateBlock(sel, i); sb != nil {
+									shut = append(shut, sb)
+								}
+							}
+						}
+					}
+				}
+			}
+			k := 0
+			bad := 0
+			for _, b := range fn.Blocks {
+				if !(b == body || body.Dominates(b)) {
+					continue
+				}
+				ret, isRet := b.Instrs[len(b.Instrs)-1].(*ssa.Return)
+				if !isRet {
+					continue
+				}
+				k++
+				okRet := false
+				for _, sb := range shut {
+					if sb == b || sb.Dominates(b) {
+						okRet = true
+					}
+				}
+				if !okRet {
+					bad++
+				}
+				r.Check(fmt.Sprintf("%s return#%d inside the message loop", name, k), okRet, posOf(p, ret), name, "a return inside the body of the loop over "+u.X.Name()+" ends dispatch for every stream of the connection; only a shutdown branch (receive from Done()/Closed()) may do that")
+			}
+			r.Check(name+" loop over incoming messages", bad == 0, posOf(p, u), name, fmt.Sprintf("%d return(s) inside the loop body, %d not on a shutdown branch", k, bad))
+		})
+	}
+	r.Stat("range_over_channel_loops", n)
 }
